@@ -256,6 +256,10 @@ func genExtra(t *rapid.T, i int) fsx.Tree {
 	n := rapid.IntRange(0, 4).Draw(t, "nextra")
 	for j := 0; j < n; j++ {
 		name := fmt.Sprintf("extra%d", j)
+		if rapid.IntRange(0, 3).Draw(t, "awkwardname") == 0 {
+			// names that merely contain dots, spaces or non-ASCII letters
+			name = rapid.SampledFrom([]string{"..data", "v1..v2.diff", "...", "with space", "-dash", "ünï", "..", "a..", ".hidden"}).Draw(t, "awkward") + fmt.Sprint(j)
+		}
 		switch rapid.IntRange(0, 26).Draw(t, "extrakind") % 9 {
 		case 0:
 			tr = append(tr, fsx.Node{Path: "docs/" + name + ".md", Kind: "file", Content: fmt.Sprintf("doc %d %d", i, j), Mode: 0644, Sec: 1500000100})
